@@ -958,6 +958,23 @@ Proof.
   - lia.
 Qed.
 
+(* a one-shot service call (BatchWrite) begins, uses and ends its own transaction inside the
+   event: at rest it has changed nothing but the data and the injected-failure flag *)
+Lemma oneshot_frame : forall cfg s c valid k v,
+  let s' := fst (step cfg s (EOneShot c valid k v)) in
+  lk s' = lk s /\ reg s' = reg s /\ objs s' = objs s /\ pends s' = pends s /\ handles s' = handles s /\
+  next_id s' = next_id s /\ next_b s' = next_b s /\ now s' = now s /\ stopped s' = stopped s.
+Proof.
+  intros. subst s'. simpl.
+  destruct (is_nil (lock_ids (lk s))); [destruct valid; [destruct (fail_next s)|]|]; simpl; repeat split.
+Qed.
+
+Lemma oneshot_shape : forall cfg s c valid k v, same_shape s (fst (step cfg s (EOneShot c valid k v))).
+Proof.
+  intros. destruct (oneshot_frame cfg s c valid k v) as [E1 [E2 [E3 [E4 [E5 [E6 [E7 _]]]]]]].
+  unfold same_shape, obj_ids, act_ids, pend_ids. rewrite E1, E2, E3, E4, E5, E6, E7. repeat split.
+Qed.
+
 Theorem step_Inv : forall cfg s e, Inv s -> ev_ok s e -> Inv (fst (step cfg s e)).
 Proof.
   intros cfg s e IS Hok. pose proof IS as [I S]. destruct e; simpl.
@@ -1020,6 +1037,8 @@ Proof.
   - apply clean_conn_Inv; auto.
   - apply shutdown_Inv; auto.
   - eapply shape_Inv. 2: exact IS. repeat split.
+  - (* one-shot service call *)
+    exact (shape_Inv _ _ (oneshot_shape cfg s c valid k v) IS).
 Qed.
 
 (* ====================================================================================== *)
@@ -1370,6 +1389,7 @@ Proof.
   - unfold shutdown. destruct (shutdown_panics s); simpl; auto.
     apply settle_ended. apply fold_purge_ended. exact H.
   - exact H.
+  - exact (shape_ended _ _ x (oneshot_shape cfg s c valid k v) H).
 Qed.
 
 Lemma finish_next_b : forall b s, next_b (finish_obj b s) = next_b s.
@@ -1672,6 +1692,14 @@ Proof.
   simpl. lia.
 Qed.
 
+Lemma zg_oneshot : forall cfg s c valid k v b, zombie_or_gone b s ->
+  zombie_or_gone b (fst (step cfg s (EOneShot c valid k v))).
+Proof.
+  intros cfg s c valid k v b Z.
+  destruct (oneshot_frame cfg s c valid k v) as [_ [E2 [_ [E4 [_ [_ [E7 _]]]]]]].
+  eapply zg_same. 4: exact Z. exact E4. rewrite E2. apply incl_refl. rewrite E7. lia.
+Qed.
+
 Theorem zombie_never_registered : forall cfg s e b, Inv s -> ev_ok s e ->
   zombie_or_gone b s -> zombie_or_gone b (fst (step cfg s e)).
 Proof.
@@ -1723,6 +1751,7 @@ Proof.
       simpl. apply (i_rind s (proj1 I)). simpl. apply incl_refl.
     + apply zg_fold_purge. eapply zg_same. 4: exact Z. reflexivity. simpl. apply incl_refl. simpl. lia.
   - eapply zg_same. 4: exact Z. reflexivity. simpl. apply incl_refl. simpl. lia.
+  - exact (zg_oneshot cfg s c valid k v b Z).
 Qed.
 
 (* when the deadline of a waiting Begin passes, it becomes such a zombie *)
@@ -1850,6 +1879,14 @@ Proof.
   unfold settle_all. apply tinv_settle. apply tinv_finish. apply tinv_upd; auto.
 Qed.
 
+Lemma tinv_oneshot : forall cfg s c valid k v, tinv cfg s ->
+  tinv cfg (fst (step cfg s (EOneShot c valid k v))).
+Proof.
+  intros cfg s c valid k v T.
+  destruct (oneshot_frame cfg s c valid k v) as [_ [_ [E3 [E4 [_ [_ [_ [E8 _]]]]]]]].
+  eapply tinv_same. 4: exact T. exact E8. exact E3. rewrite E4. apply incl_refl.
+Qed.
+
 Lemma tinv_step : forall cfg s e, tinv cfg s -> tinv cfg (fst (step cfg s e)).
 Proof.
   intros cfg s e T. destruct e; simpl.
@@ -1887,6 +1924,7 @@ Proof.
   - unfold shutdown. destruct (shutdown_panics s); simpl; auto.
     unfold settle_all. apply tinv_settle. apply tinv_fold_purge. exact T.
   - exact T.
+  - exact (tinv_oneshot cfg s c valid k v T).
 Qed.
 
 Lemma reachable_tinv : forall cfg s, reachable cfg s -> tinv cfg s.
@@ -2013,3 +2051,154 @@ Example failed_commit_ends_transaction :
   let r := run cfg init [EBegin 1 false 0; EPut 1 1 5; EFailNext; ECommit 1; ECommit 1; EBegin 2 false 0] in
   snd r = [OBegin 1 ROk; ORes 1 ROk; OMaint ROk; ORes 1 RFail; ORes 1 RClosed; OBegin 2 ROk] /\ db (fst r) = [].
 Proof. vm_compute. split; reflexivity. Qed.
+
+(* ====================================================================================== *)
+(* one-shot service calls: the transactions the service begins ITSELF inside one call     *)
+(* (KevoServiceServer.BatchWrite: begin read-write, validate + buffer, commit; on any     *)
+(* rejection the deferred function rolls back)                                            *)
+(* ====================================================================================== *)
+
+(* the call has ended its transaction when it returns: lock, registry, transaction objects,
+   waiting Begins and the clients' handles are exactly what they were *)
+Theorem oneshot_releases : forall cfg s c valid k v,
+  let s' := fst (step cfg s (EOneShot c valid k v)) in
+  lk s' = lk s /\ reg s' = reg s /\ objs s' = objs s /\ pends s' = pends s /\ handles s' = handles s.
+Proof.
+  intros. destruct (oneshot_frame cfg s c valid k v) as [E1 [E2 [E3 [E4 [E5 _]]]]]. repeat split; assumption.
+Qed.
+
+(* ... hence what an observer probes (TryLock / TryRLock, number of registered transactions) *)
+Corollary oneshot_lock_state : forall cfg s c valid k v,
+  let s' := fst (step cfg s (EOneShot c valid k v)) in
+  lock_state s' = lock_state s /\ reg_size s' = reg_size s.
+Proof.
+  intros. destruct (oneshot_releases cfg s c valid k v) as [E1 [E2 _]]. fold s' in E1, E2.
+  unfold lock_state, reg_size. rewrite E1, E2. split; reflexivity.
+Qed.
+
+Corollary oneshot_releases_observed : forall cfg s c valid k v,
+  let s' := fst (step cfg s (EOneShot c valid k v)) in
+  (lk s' = lk s /\ reg s' = reg s /\ objs s' = objs s /\ pends s' = pends s /\ handles s' = handles s) /\
+  (lock_state s' = lock_state s /\ reg_size s' = reg_size s).
+Proof. intros. split. apply oneshot_releases. apply oneshot_lock_state. Qed.
+
+Example oneshot_releases_nonvacuous :
+  let cfg := mkConfig 300 1300 900 10000 true false in
+  let r := run cfg init [EOneShot 1 false 1 (Some 5); EOneShot 1 true 1 (Some 5); EBegin 2 false 0;
+                         EOneShot 1 true 2 (Some 6); ECommit 2; EOneShot 1 true 1 None;
+                         EFailNext; EOneShot 3 true 2 (Some 7); EOneShot 3 false 0 None] in
+  snd r = [ORes 1 RInvalid; ORes 1 ROk; OBegin 2 ROk; ORes 1 RBusy; ORes 2 ROk; ORes 1 ROk;
+           OMaint ROk; ORes 3 RFail; ORes 3 RInvalid]
+  /\ lock_state (fst r) = LFree /\ reg_size (fst r) = 0 /\ db (fst r) = [] /\ fail_next (fst r) = false.
+Proof. vm_compute. repeat split. Qed.
+
+(* a rejected call (invalid key size, value too large, unknown operation type) changes nothing at
+   all — whether the lock was free (begun, rejected, rolled back) or not (not issued) *)
+Theorem oneshot_rejected_no_effect : forall cfg s c k v,
+  fst (step cfg s (EOneShot c false k v)) = s.
+Proof. intros. simpl. destruct (is_nil (lock_ids (lk s))); reflexivity. Qed.
+
+Example oneshot_rejected_nonvacuous :
+  let cfg := mkConfig 300 1300 900 10000 true false in
+  let s := fst (run cfg init [EOneShot 1 true 1 (Some 5); EBegin 2 true 0]) in
+  step cfg s (EOneShot 1 false 1 (Some 9)) = (s, [ORes 1 RBusy]) /\
+  step cfg (fst (step cfg s (ERollback 2))) (EOneShot 1 false 1 (Some 9)) =
+    (fst (step cfg s (ERollback 2)), [ORes 1 RInvalid]) /\
+  db s = [(1, 5)].
+Proof. vm_compute. repeat split. Qed.
+
+Lemma find_del_other : forall (k k' : N) (d : list (N * N)), k' <> k ->
+  find (fun kv => N.eqb (fst kv) k') (db_del k d) = find (fun kv => N.eqb (fst kv) k') d.
+Proof.
+  intros k k' d Hne. unfold db_del. induction d as [|[a x] d IH]; simpl; auto.
+  destruct (a =? k) eqn:E1; simpl.
+  - destruct (a =? k') eqn:E2; auto. apply N.eqb_eq in E1. apply N.eqb_eq in E2. congruence.
+  - destruct (a =? k'); auto.
+Qed.
+
+Lemma db_get_set : forall k x d, db_get k (db_set k x d) = Some x.
+Proof. intros. unfold db_get, db_set. simpl. rewrite N.eqb_refl. reflexivity. Qed.
+
+Lemma db_get_del : forall k d, db_get k (db_del k d) = None.
+Proof.
+  intros. unfold db_get. destruct (find (fun kv => N.eqb (fst kv) k) (db_del k d)) as [kv|] eqn:F; auto.
+  apply find_some in F. destruct F as [Hin He]. unfold db_del in Hin. apply filter_In in Hin.
+  destruct Hin as [_ Hn]. rewrite He in Hn. discriminate.
+Qed.
+
+Lemma db_get_del_other : forall k k' d, k' <> k -> db_get k' (db_del k d) = db_get k' d.
+Proof. intros. unfold db_get. rewrite find_del_other; auto. Qed.
+
+Lemma db_get_set_other : forall k k' x d, k' <> k -> db_get k' (db_set k x d) = db_get k' d.
+Proof.
+  intros k k' x d Hne. unfold db_get, db_set. simpl.
+  destruct (k =? k') eqn:E. apply N.eqb_eq in E. congruence.
+  rewrite find_del_other; auto.
+Qed.
+
+Lemma lock_free_nil : forall s, lock_state s = LFree -> is_nil (lock_ids (lk s)) = true.
+Proof.
+  intros s H. unfold lock_state in H. destruct (is_nil (lock_ids (lk s))); auto.
+  destruct (is_nil (l_wq (lk s))); discriminate.
+Qed.
+
+(* an accepted call on a free database is applied and acknowledged: its key reads back as
+   written (deleted: absent) ... *)
+Theorem oneshot_applied : forall cfg s c k v,
+  lock_state s = LFree -> fail_next s = false ->
+  db_get k (db (fst (step cfg s (EOneShot c true k v)))) = v /\
+  snd (step cfg s (EOneShot c true k v)) = [ORes c ROk].
+Proof.
+  intros cfg s c k v Hl Hf. apply lock_free_nil in Hl. simpl. rewrite Hl, Hf. simpl. split; auto.
+  destruct v; simpl. apply db_get_set. apply db_get_del.
+Qed.
+
+(* ... and no other key changes, whatever the call was and however it was answered *)
+Theorem oneshot_other_keys : forall cfg s c valid k v k', k' <> k ->
+  db_get k' (db (fst (step cfg s (EOneShot c valid k v)))) = db_get k' (db s).
+Proof.
+  intros cfg s c valid k v k' Hne. simpl.
+  destruct (is_nil (lock_ids (lk s))); [destruct valid; [destruct (fail_next s)|]|]; simpl; auto.
+  destruct v; simpl. apply db_get_set_other; auto. apply db_get_del_other; auto.
+Qed.
+
+Example oneshot_applied_nonvacuous :
+  let cfg := mkConfig 300 1300 900 10000 true true in
+  let s := fst (run cfg init [EBegin 1 false 0; EPut 1 1 5; EPut 1 2 6; ECommit 1]) in
+  lock_state s = LFree /\ fail_next s = false /\
+  let s1 := fst (step cfg s (EOneShot 2 true 1 (Some 8))) in
+  let s2 := fst (step cfg s1 (EOneShot 2 true 2 None)) in
+  db_get 1 (db s1) = Some 8 /\ db_get 2 (db s1) = Some 6 /\ db_get 1 (db s2) = Some 8 /\ db_get 2 (db s2) = None.
+Proof. vm_compute. repeat split. Qed.
+
+(* reachable states are closed under one-shot calls (they are events like any other, and `ev_ok`
+   puts no condition on them): every theorem above that quantifies over `reachable` — lock
+   balance, finish once, no leak, the cleanups, begin time-out — covers programs in which the
+   service's own transactions are interleaved with the clients' *)
+Lemma reachable_oneshot : forall cfg s c valid k v, reachable cfg s ->
+  reachable cfg (fst (step cfg s (EOneShot c valid k v))).
+Proof. intros. apply reach_step; simpl; auto. Qed.
+
+(* in particular a one-shot call can never be what keeps the database locked: when every client
+   has finished, the lock is free after the call as before it and a fresh Begin is granted *)
+Theorem oneshot_no_leak : forall cfg s c valid k v, reachable cfg s -> all_finished s ->
+  let s' := fst (step cfg s (EOneShot c valid k v)) in
+  lock_ids (lk s') = [] /\ pends s' = [] /\
+  forall c' ro d, In (OBegin c' ROk) (snd (step cfg s' (EBegin c' ro d))).
+Proof.
+  intros cfg s c valid k v R F s'. apply no_leak.
+  - apply reachable_oneshot. assumption.
+  - destruct (oneshot_releases cfg s c valid k v) as [_ [E2 [E3 _]]]. fold s' in E2, E3.
+    intros r Hr. rewrite E2 in Hr. unfold is_active. rewrite E3. apply (F r Hr).
+Qed.
+
+Example oneshot_reachable_nonvacuous :
+  let cfg := mkConfig 300 1300 900 10000 true false in
+  (* one-shot calls between the clients' calls: refused while a client's transaction is open,
+     applied once it has ended; a waiting Begin is not disturbed *)
+  let r := run cfg init [EBegin 1 true 0; EOneShot 3 true 1 (Some 1); EBegin 2 false 500; EOneShot 3 false 1 None;
+                         ERollback 1; EOneShot 3 true 1 (Some 2); EPut 2 1 3; ECommit 2; EOneShot 3 true 2 (Some 4)] in
+  snd r = [OBegin 1 ROk; ORes 3 RBusy; OBegin 2 RWait; ORes 3 RBusy; ORes 1 ROk; OAsync 2 ROk; ORes 3 RBusy;
+           ORes 2 ROk; ORes 2 ROk; ORes 3 ROk]
+  /\ lock_state (fst r) = LFree /\ reg_size (fst r) = 0 /\ db (fst r) = [(2, 4); (1, 3)].
+Proof. vm_compute. repeat split. Qed.
